@@ -4,6 +4,7 @@ use crate::description::Description;
 use crate::directive::Directive;
 use crate::directive::DirectiveLocation;
 use crate::name::Name;
+use crate::selection_set::Selection;
 use crate::selection_set::SelectionSet;
 use crate::ty::Ty;
 use crate::DocumentBuilder;
@@ -88,6 +89,20 @@ impl From<Field> for ast::Field {
             directives: Directive::to_ast(x.directives),
             arguments: x.args.into_iter().map(|x| Node::new(x.into())).collect(),
             selection_set: x.selection_set.map(Into::into).unwrap_or_default(),
+        }
+    }
+}
+
+impl Field {
+    /// The `__typename` meta field, which can be selected on any object,
+    /// interface or union type.
+    pub(crate) fn typename() -> Self {
+        Self {
+            alias: None,
+            name: Name::new(String::from("__typename")),
+            args: Vec::new(),
+            directives: IndexMap::new(),
+            selection_set: None,
         }
     }
 }
@@ -202,6 +217,12 @@ impl DocumentBuilder<'_> {
                 let res = Some(self.selection_set()?);
                 self.stack.pop();
                 res
+            } else if self.is_union_ty(&chosen_field_def.ty) {
+                // A field of union type must have a selection set, and
+                // `__typename` is the one field every union has.
+                Some(SelectionSet {
+                    selections: vec![Selection::Field(Field::typename())],
+                })
             } else {
                 None
             }
